@@ -535,6 +535,10 @@ func (g *e1func) projectLocals(st *fstate) *fstate {
 			any = true
 			if fc.S == "def" && len(fc.A) == 2 && fc.A[0].K == "var" {
 				defs[fc.A[0].Key()] = fc.A[1]
+			} else if fc.S == "def" && len(fc.A) == 3 && fc.A[0].K == "var" {
+				if _, dup := defs[fc.A[0].Key()]; !dup {
+					defs[fc.A[0].Key()] = mk("res", fc.A[2].S, fc.A[1]) // v is result i of that call / assertion / lookup
+				}
 			}
 		}
 	}
